@@ -64,8 +64,11 @@ Definition chain_sig (o : opname) : sig :=
   | Distance => mkSig Observe fold_fields [] []
   | Expectation | Expectations | Rdm | Entropy | Norm | Dense => mkSig Observe [] [] []
   | Evolve PC | Evolve PCrk4 | Evolve PCrk => mkSig Derive fold_fields [] []
-  | Evolve TdvpMuVmf | Evolve TdvpVmf | Evolve TdvpMuCmf => mkSig Derive gauge_fields [] []
-  | Evolve TdvpPs | Evolve TdvpPs2 => mkSig Derive [] [] []
+  (* all TDVP entries may re-gauge their input first (ensure_left/right_canonical, since cb3add5 also the pair of
+     QR sweeps of _trim_overcomplete_bonds; since c491f36 also the projector-splitting schemes): tensors, labels
+     and qnidx/to_right of the input are rewritten, tensors x prefactor is not *)
+  | Evolve TdvpMuVmf | Evolve TdvpVmf | Evolve TdvpMuCmf | Evolve TdvpPs | Evolve TdvpPs2 =>
+      mkSig Derive gauge_fields [] []
   | FromMps => mkSig Derive [] [] [FQntot]        (* MpDm.from_mps: mpo.qntot = mps.qntot *)
   | ScaleIn | ToComplexIn => mkSig Mutate [] [FSite; FCoeff; FMeta] []
   | CanonicaliseIn | CompressIn => mkSig Mutate [] [FSite; FLabel; FMeta] []
